@@ -44,7 +44,7 @@ theorem matching_pairing {W : Type} (logOdds : Rat → W) (H : Mat) (n : Nat) (p
               matcherZ := some ⟨Hx H, (raddv pz py).map logOdds⟩ }
       else .error .valueError := by
   unfold MatchingDec.new getWeights
-  cases isCss H <;> simp [parseErrType, ErrType.doesX, ErrType.doesZ]
+  cases isCss H <;> simp [parseErrType, ErrType_dec.doesX, ErrType_dec.doesZ]
 
 /-- **MatchingDecoder**: for every CSS matrix, every error `e` and every weights, the
     correction is `[solve(Hz, w_x, Z-row syndrome) | solve(Hx, w_z, X-row syndrome)]`, has
@@ -121,7 +121,7 @@ theorem unionfind_correction_reproduces_syndrome (uf : USolver) (H : Mat) (n : N
     history of `decode` calls: Z correction from the ldpc object built on `Hx` fed the
     X-row syndrome, X correction from the one built on `Hz` fed the Z-row syndrome,
     concatenated `[x | z]`; reproduces the syndrome (with or without `channel_update`). -/
-theorem bposd_css_correction_reproduces_syndrome (S : BpSolver) (d : BpDec)
+theorem bposd_css_correction_reproduces_syndrome (S : BpSolver) (d : BpDec_dec)
     (hcss : isCss d.H = true) (hSX : BpValidOn d.n S (Hz d.H)) (hSZ : BpValidOn d.n S (Hx d.H))
     (hist : List Vec) (e : Vec) (he : e.length = 2 * d.n) :
     ∃ c, (d.decode S (d.run S BpSt.init hist) (measureSyndrome d.H e)).2.2 = .ok c ∧
@@ -132,7 +132,7 @@ theorem bposd_css_correction_reproduces_syndrome (S : BpSolver) (d : BpDec)
 /-- **BP-OSD, non-CSS codes** (Clifford-deformed): one ldpc object on the full matrix with
     priors `[pz+py | px+py]`; the answer is in `[z | x]` order and its halves are swapped
     back; reproduces the syndrome. -/
-theorem bposd_noncss_correction_reproduces_syndrome (S : BpSolver) (d : BpDec)
+theorem bposd_noncss_correction_reproduces_syndrome (S : BpSolver) (d : BpDec_dec)
     (hcss : isCss d.H = false) (hrows : ∀ r ∈ d.H, r.length = 2 * d.n)
     (hS : BpValidOn (2 * d.n) S d.H) (hist : List Vec) (e : Vec) (he : e.length = 2 * d.n) :
     ∃ c, (d.decode S (d.run S BpSt.init hist) (measureSyndrome d.H e)).2.2 = .ok c ∧
@@ -142,12 +142,12 @@ theorem bposd_noncss_correction_reproduces_syndrome (S : BpSolver) (d : BpDec)
 
 /-- what the non-CSS ldpc object is given: the full matrix, no serial schedule, priors
     `[pz+py | px+py]` (model fact used by the correspondence) -/
-theorem bposd_noncss_priors (S : BpSolver) (d : BpDec) (hcss : isCss d.H = false) (s : Vec)
+theorem bposd_noncss_priors (S : BpSolver) (d : BpDec_dec) (hcss : isCss d.H = false) (s : Vec)
     (hl : s.length = d.H.length) :
     d.pureDecode S s =
       .ok ((S.decode d.H false (raddv d.pz d.py ++ raddv d.px d.py) s).drop d.n ++
            (S.decode d.H false (raddv d.pz d.py ++ raddv d.px d.py) s).take d.n) := by
-  unfold BpDec.pureDecode; simp [hcss, hl]
+  unfold BpDec_dec.pureDecode; simp [hcss, hl]
 
 /-- **Sweep-match decoders** (`SweepMatchDecoder`, `RotatedSweepMatchDecoder`): with a
     sweeper that returns a Z-only binary vector of length `2n` (black box, any generator
